@@ -210,6 +210,46 @@ func (c17) Run(c *run.Ctx, phase, idx int) {
 			c.Sample(map[string]interface{}{"packet": "Publish", "cell": cell, "expected_malformed": want, "paths": []string{"api", "wire"}, "variations": reps})
 		}
 	case 1:
+		if idx == 0 {
+			// many malformed filters: the verdict must not depend on how many
+			// there are (counts around the wrap of 8- and 16-bit counters)
+			for _, n := range []int{255, 256, 257, 65535, 65536, 65537, 131072} {
+				for _, bad := range []string{"empty", "qos3"} {
+					for _, extraGood := range []int{0, 1} {
+						p := mq.NewSubscribe()
+						p.SetPacketID(7)
+						var subs []ref.Sub
+						for k := 0; k < n; k++ {
+							f := mq.NewTopicFilter("a/b", mq.OptQoS1)
+							s := ref.Sub{Filter: "a/b", Opts: 1}
+							if bad == "empty" {
+								f = mq.NewTopicFilter("", mq.OptQoS1)
+								s.Filter = ""
+							} else {
+								f = mq.NewTopicFilter("a/b", mq.OptQoS3)
+								s.Opts = 3
+							}
+							p.AddFilters(f)
+							subs = append(subs, s)
+						}
+						for k := 0; k < extraGood; k++ {
+							p.AddFilters(mq.NewTopicFilter("good", mq.OptQoS1))
+							subs = append(subs, ref.Sub{Filter: "good", Opts: 1})
+						}
+						cell := fmt.Sprintf("%d %s filters + %d good", n, bad, extraGood)
+						det := map[string]interface{}{"cell": cell}
+						c17Judge(c, "Subscribe", cell, "api", true, p.WellFormed, p.String, det)
+						f, _ := ref.Encode(&ref.Packet{Type: ref.TSubscribe, Flags: 2, PacketID: 7, Subs: subs})
+						if res := libRead(f); res.Accepted() {
+							if dp, ok := res.Pkt.(*mq.Subscribe); ok {
+								c17Judge(c, "Subscribe", cell, "wire", true, dp.WellFormed, dp.String, det)
+							}
+						}
+						c.Tick()
+					}
+				}
+			}
+		}
 		i := idx
 		count := i % 4
 		i /= 4
